@@ -334,18 +334,28 @@ def build_catalog(ck, wd):
     M = [("Head1.tri", "M %s/Head1.tri" % H1), ("cortex.1.tri", "M %s/cortex.1.tri" % H1), ("scalp.1.tri", "M %s/scalp.1.tri" % H1),
          ("ico0.tri", "M %s/ico0.tri" % md), ("ico0.off", "M %s/ico0.off" % md), ("ico1.tri", "M %s/ico1.tri" % md),
          ("ico0big.bnd", "M %s/ico0big.bnd" % md), ("missing.tri", "M %s/missing.tri" % md), ("unknown-ext", "M %s/Head1.cond" % H1)]
+    ld = os.path.join(gd, "linop"); os.makedirs(ld, exist_ok=True)
+    def wl(name, b):
+        p = os.path.join(ld, name); open(p, "wb").write(b); return p
+    sparse_bin = struct.pack("<II", 5, 5) + b"".join(struct.pack("<IId", i, j, v) for i, j, v in [(0, 0, 1.5), (1, 1, 2.5), (4, 4, -1.0)])
+    L = [("sparse-4x4-a.txt", "L " + wl("spa.txt", b"4 4\n0 3 1\n1 1 2\n")), ("sparse-4x4-b.txt", "L " + wl("spb.txt", b"4 4\n2 2 5\n1 1 7\n")),
+         ("sparse-3x5.txt", "L " + wl("spc.txt", b"3 5\n0 0 1\n")), ("sparse-5x5.bin", "L " + wl("spd.bin", sparse_bin)),
+         ("matrix-2x3.txt", "L " + wl("m23.txt", b"1 2 3\n4 5 6\n")), ("matrix-3x3.txt", "L " + wl("m33.txt", b"1 2 3\n4 5 6\n7 8 10\n")),
+         ("sym-3.txt", "L " + wl("s3.txt", b"1 2 3\n4 5\n6\n")), ("vector-4.txt", "L " + wl("v4.txt", b"1\n2\n3\n4\n")),
+         ("vector-3.bin", "L " + wl("v3.bin", struct.pack("<I", 3) + struct.pack("<ddd", 1.0, 2.0, 3.0))),
+         ("missing", "L %s/nothere.txt" % ld), ("garbage.txt", "L " + wl("g.txt", b"hello world, this is not a matrix file at all\n"))]
     with open(os.path.join(wd, "catalog.txt"), "w") as fh:
-        for _, l in G + S + M: fh.write(l + "\n")
-    return dict(G=G, S=S, M=M)
+        for _, l in G + S + M + L: fh.write(l + "\n")
+    return dict(G=G, S=S, M=M, L=L)
 
 def object_worlds(ck, hb, wd, cat):
     """one fresh process per catalog entry: what the operation does to a fresh object"""
     rn = Renum()
-    jobs = [("G", i) for i in range(len(cat["G"]))] + [("S0", i) for i in range(len(cat["S"]))] + [("S1", i) for i in range(len(cat["S"]))] + [("M", i) for i in range(len(cat["M"]))]
+    jobs = [("G", i) for i in range(len(cat["G"]))] + [("S0", i) for i in range(len(cat["S"]))] + [("S1", i) for i in range(len(cat["S"]))] + [("M", i) for i in range(len(cat["M"]))] + [("L%d" % k, i) for k in range(4) for i in range(len(cat["L"]))]
     def run(j):
         t, i = j; d = os.path.join(wd, "f%s_%d" % (t, i)); os.makedirs(d, exist_ok=True)
         shutil.copy(os.path.join(wd, "catalog.txt"), d)
-        line = {"G": "c17 20 %d", "S0": "c17 30 0 %d", "S1": "c17 30 1 %d", "M": "c17 40 %d"}[t] % i
+        line = {"G": "c17 20 %d", "S0": "c17 30 0 %d", "S1": "c17 30 1 %d", "M": "c17 40 %d", "L0": "c17 50 0 %d", "L1": "c17 50 1 %d", "L2": "c17 50 2 %d", "L3": "c17 50 3 %d"}[t] % i
         return ints(hrun(hb, [line], d, timeout=600)[0])
     with ThreadPoolExecutor(8) as ex:
         res = dict(zip(jobs, ex.map(run, jobs)))
@@ -380,14 +390,23 @@ def object_worlds(ck, hb, wd, cat):
         if o is None: Mw.append(None); continue
         st, nv = o[0], o[1]; vs = [rn(h) for h in o[2:2 + nv]]; nt = o[2 + nv]; ts = o[3 + nv:3 + nv + 3 * nt]; so = o[3 + nv + 3 * nt]; sf = o[4 + nv + 3 * nt]
         Mw.append([st, nv] + vs + [nt] + ts + [so, sf])
-    return Gw, Sw, Mw, rn, res
+    Lw = {}
+    for k in range(4):
+        Lw[k] = []
+        for i in range(len(cat["L"])):
+            o = res[("L%d" % k, i)]
+            ob = split_lenpref(o)[0] if o else None
+            if ob is None: Lw[k].append(None)
+            elif ob[0] != 0: Lw[k].append([ob[0], 0, 0, 0])
+            else: Lw[k].append([0, ob[1], ob[2], ob[3]] + ob[4:])
+    return Gw, Sw, Mw, Lw, rn, res
 
 def check_objects(ck, hb, quick, replay):
     wd = os.path.join(ck.workdir, "obj"); os.makedirs(wd, exist_ok=True)
     cat = build_catalog(ck, wd)
-    Gw, Sw, Mw, rn, raw = object_worlds(ck, hb, wd, cat)
-    stats = dict(geometry=dict(seqs=0, ops=0, op={}, status={}), sensors=dict(seqs=0, ops=0, status={}), mesh=dict(seqs=0, ops=0, op={}, status={}, explained_by_known_finding=0))
-    bad = [l for (l, _), w in zip(cat["G"], Gw) if w is None] + [l for (l, _), w in zip(cat["M"], Mw) if w is None] + [l for ge in (0, 1) for (l, _), w in zip(cat["S"], Sw[ge]) if w is None]
+    Gw, Sw, Mw, Lw, rn, raw = object_worlds(ck, hb, wd, cat)
+    stats = dict(linop=dict(seqs=0, ops=0, status={}), geometry=dict(seqs=0, ops=0, op={}, status={}), sensors=dict(seqs=0, ops=0, status={}), mesh=dict(seqs=0, ops=0, op={}, status={}, explained_by_known_finding=0))
+    bad = [l for (l, _), w in zip(cat["G"], Gw) if w is None] + [l for (l, _), w in zip(cat["M"], Mw) if w is None] + [l for ge in (0, 1) for (l, _), w in zip(cat["S"], Sw[ge]) if w is None] + [l for k in range(4) for (l, _), w in zip(cat["L"], Lw[k]) if w is None]
     for l in bad:
         ck.violation("objects: crash while describing %s" % l, "a single load of %s in a fresh process crashed the harness" % l, dict(kind="crash", entry=l), found_input=False)
     if bad: return stats
@@ -398,7 +417,10 @@ def check_objects(ck, hb, quick, replay):
     gseqs = [[(0, 0), (0, 0)], [(0, 0), (0, 0), (1, 0)], [(0, 2), (0, 3)], [(0, 0), (1, 0), (1, 0), (0, 4), (0, 0), (1, 0)]]     # witnesses first
     sseqs = [(0, [0, 0]), (0, [0, 2]), (1, [9, 9])]
     mseqs = [[(0, 0), (0, 1)], [(0, 0), (1, 0), (0, 0)], [(0, 0), (1, 0), (1, 0)]]
+    nL = len(cat["L"])
+    lseqs = [(3, [0, 1]), (3, [3, 2]), (1, [4, 5])]
     if replay:
+        lseqs = [(r["kind"], r["ops"]) for r in replay if r["machine"] == "linop"]
         gseqs = [[tuple(o) for o in r["ops"]] for r in replay if r["machine"] == "geometry"]
         sseqs = [(r["geom"], r["ops"]) for r in replay if r["machine"] == "sensors"]
         mseqs = [[tuple(o) for o in r["ops"]] for r in replay if r["machine"] == "mesh"]
@@ -408,8 +430,13 @@ def check_objects(ck, hb, quick, replay):
             n = rng.randint(2, L); h = []
             for _ in range(n):
                 if h and rng.random() < 0.2 and any(o == 0 and i in small for o, i in h[-1:]): h.append((1, 0))
+                elif h and rng.random() < 0.1: h.append((2, 0))
                 else: h.append((0, rng.choice(small) if rng.random() < 0.7 else rng.randrange(nG)))
             gseqs.append(h)
+        for _ in range(40 if quick else 400):
+            k = rng.choice([3, 3, 3, 0, 1, 2])
+            good = [i for i in range(nL) if Lw[k][i][0] == 0]
+            lseqs.append((k, [(rng.choice(good) if good and rng.random() < 0.75 else rng.randrange(nL)) for _ in range(rng.randint(2, L))]))
         for _ in range(40 if quick else 400):
             ge = 1 if rng.random() < 0.25 else 0
             sseqs.append((ge, [rng.randrange(nS) for _ in range(rng.randint(2, L))]))
@@ -420,6 +447,27 @@ def check_objects(ck, hb, quick, replay):
     scases = ["c17 " + " ".join(map(str, [3, 1, ge, nS] + flat(Sw[ge]) + [len(h)] + h)) for ge, h in sseqs]
     mcases = ["c17 " + " ".join(map(str, [4, 1, nM] + flat(Mw) + [len(h)] + flat(h))) for h in mseqs]
     icases = ["c17 " + " ".join(map(str, [4, 3, nM] + flat(Mw) + [len(h)] + flat(h))) for h in mseqs]      # fresh private geometry at every load
+    lcases = ["c17 " + " ".join(map(str, [5, 1, 1 if k == 3 else 0, nL] + flat(Lw[k]) + [len(h)] + h)) for k, h in lseqs]
+    lmo = core.run_model(lcases)
+    def lone(j):
+        k, h = lseqs[j]
+        d = os.path.join(wd, "l%d" % j); os.makedirs(d, exist_ok=True); shutil.copy(os.path.join(wd, "catalog.txt"), d)
+        r = hrun(hb, ["c17 " + " ".join(map(str, [5, k, len(h)] + h))], d)[0]; shutil.rmtree(d, ignore_errors=True); return r
+    with ThreadPoolExecutor(8) as ex:
+        lho = list(ex.map(lone, range(len(lseqs))))
+    for (k, h), m, o in zip(lseqs, lmo, lho):
+        stats["linop"]["seqs"] += 1; stats["linop"]["ops"] += len(h)
+        names = "; ".join("%s::load %s" % (KIND[k], cat["L"][i][0]) for i in h)
+        rp = dict(kind="object-history", machine="linop", cases=[dict(machine="linop", kind=k, ops=list(h))], history=names, replay_cmd="./check C17 --replay <this file>")
+        if ints(o) is None:
+            ck.violation("linop: crash in history " + names, "the harness crashed (%s): %s" % (o, names), rp); continue
+        mt = split_lenpref([int(t) for t in m.split()]); ht = split_lenpref(ints(o))
+        for q in range(min(len(ht), len(h))): stats["linop"]["status"][str(ht[q][0])] = stats["linop"]["status"].get(str(ht[q][0]), 0) + 1
+        diff = [q for q in range(len(h)) if q >= len(ht) or q >= len(mt) or ht[q] != mt[q]]
+        if diff:
+            q = diff[0]; a = ht[q] if q < len(ht) else None; b = mt[q] if q < len(mt) else None
+            ck.violation("linop: %s differs after history (%s)" % ("number of stored entries" if a and b and len(a) > 3 and len(b) > 3 and a[3] != b[3] else "loaded object", names if len(h) <= 3 else "%d loads" % len(h)),
+                         "load %d of the history [%s] into one %s object gives (status,nlin,ncol,#entries,...)=%s, the same load into a fresh object gives %s" % (q, names, KIND[k], (a or [])[:12], (b or [])[:12]), rp)
     mo = core.run_model(gcases + scases + mcases + icases)
     mg, ms, mm, mi = mo[:len(gcases)], mo[len(gcases):len(gcases) + len(scases)], mo[len(gcases) + len(scases):len(gcases) + len(scases) + len(mcases)], mo[len(gcases) + len(scases) + len(mcases):]
     hl = ["c17 " + " ".join(map(str, [2, len(h)] + flat(h))) for h in gseqs] + ["c17 " + " ".join(map(str, [3, ge, len(h)] + h)) for ge, h in sseqs] + ["c17 " + " ".join(map(str, [4, len(h)] + flat(h))) for h in mseqs]
@@ -437,13 +485,13 @@ def check_objects(ck, hb, quick, replay):
     # ---- geometry
     for h, m, o in zip(gseqs, mg, hg):
         stats["geometry"]["seqs"] += 1; stats["geometry"]["ops"] += len(h)
-        names = "; ".join(("load " + cat["G"][i][0]) if op == 0 else "HeadMat" for op, i in h)
+        names = "; ".join(("load " + cat["G"][i][0]) if op == 0 else "HeadMat" if op == 1 else "DipSourceMat" for op, i in h)
         rp = dict(kind="object-history", machine="geometry", cases=[dict(machine="geometry", ops=[list(x) for x in h])], history=names, replay_cmd="./check C17 --replay <this file>")
         mt = split_lenpref([int(t) for t in m.split()]); ht = split_lenpref(ints(o))
         if ints(o) is None:
             ck.violation("geometry: crash in history " + names, "the harness crashed (%s) while running the history in one process: %s; every single operation runs in a fresh process" % (o, names), rp); continue
         for q, (op, i) in enumerate(h):
-            stats["geometry"]["op"]["load" if op == 0 else "HeadMat"] = stats["geometry"]["op"].get("load" if op == 0 else "HeadMat", 0) + 1
+            on = ["load", "HeadMat", "DipSourceMat"][op]; stats["geometry"]["op"][on] = stats["geometry"]["op"].get(on, 0) + 1
             if q < len(ht): stats["geometry"]["status"][str(ht[q][0]) if op == 0 else "assembled"] = stats["geometry"]["status"].get(str(ht[q][0]) if op == 0 else "assembled", 0) + 1
         diff = [q for q in range(len(h)) if q >= len(ht) or q >= len(mt) or ht[q] != mt[q]]
         if diff:
@@ -498,7 +546,7 @@ def check_objects(ck, hb, quick, replay):
                              "load cortex.1.tri after Head1.tri into the same stand-alone Mesh: geometry().vertices().size()=%d and first triangle %s, a fresh Mesh gives %d and %s (the private geometry is never cleared)" % (ht[q][1], ht[q][7:10], it[q][1], it[q][7:10]), rp)
             else:
                 stats["mesh"]["explained_by_known_finding"] += 1
-    stats["catalog"] = dict(geometry=[l for l, _ in cat["G"]], sensors=[l for l, _ in cat["S"]], mesh=[l for l, _ in cat["M"]])
+    stats["catalog"] = dict(linop=[l for l, _ in cat["L"]], geometry=[l for l, _ in cat["G"]], sensors=[l for l, _ in cat["S"]], mesh=[l for l, _ in cat["M"]])
     return stats
 
 def main(replay=None):
@@ -515,16 +563,16 @@ def main(replay=None):
     st_io, seqs, st_obj = {}, [], {}
     if not replay or rmach == "io":
         st_io, seqs = check_io(ck, hb, quick, rcases)
-    if not replay or rmach in ("geometry", "sensors", "mesh"):
+    if not replay or rmach in ("geometry", "sensors", "mesh", "linop"):
         st_obj = check_objects(ck, hb, quick, rcases)
-    nobj = sum(st_obj.get(k, {}).get("ops", 0) for k in ("geometry", "sensors", "mesh"))
+    nobj = sum(st_obj.get(k, {}).get("ops", 0) for k in ("geometry", "sensors", "mesh", "linop"))
     ck.cov.update(evaluations=st_io.get("ops", 0) + nobj,
-                  distinct_nontrivial=len({json.dumps(s) for s in seqs if len(s[1]) >= 2}) + sum(st_obj.get(k, {}).get("seqs", 0) for k in ("geometry", "sensors", "mesh")),
+                  distinct_nontrivial=len({json.dumps(s) for s in seqs if len(s[1]) >= 2}) + sum(st_obj.get(k, {}).get("seqs", 0) for k in ("geometry", "sensors", "mesh", "linop")),
                   rule="IO: operation histories (length 1..%d) over 12 file names (suffix classes mat/txt/tex/bin/unknown/none, two in a missing directory) and %d measured contents; objects: load/assemble histories (length 2..%d) on one Geometry / Sensors / Mesh object over the catalog of data and generated files; non-trivial = at least two operations; distinct = distinct histories" % (8 if quick else 20, st_io.get("contents", 0), 8 if quick else 20),
                   samples=[json.dumps(dict(fs=fs, ops=ops)) for fs, ops in seqs[3:6]],
-                  op_distribution=dict(io=st_io.get("op", {}), geometry=st_obj.get("geometry", {}).get("op", {}), mesh=st_obj.get("mesh", {}).get("op", {}), sensors=dict(load=st_obj.get("sensors", {}).get("ops", 0))),
-                  outcome_distribution=dict(io=st_io.get("fail", {}), geometry=st_obj.get("geometry", {}).get("status", {}), sensors=st_obj.get("sensors", {}).get("status", {}), mesh=st_obj.get("mesh", {}).get("status", {})),
-                  traces_validated_against_impl=st_io.get("seqs", 0) + sum(st_obj.get(k, {}).get("seqs", 0) for k in ("geometry", "sensors", "mesh")), io=st_io, objects=st_obj)
+                  op_distribution=dict(io=st_io.get("op", {}), geometry=st_obj.get("geometry", {}).get("op", {}), mesh=st_obj.get("mesh", {}).get("op", {}), sensors=dict(load=st_obj.get("sensors", {}).get("ops", 0)), linop=dict(load=st_obj.get("linop", {}).get("ops", 0))),
+                  outcome_distribution=dict(io=st_io.get("fail", {}), geometry=st_obj.get("geometry", {}).get("status", {}), sensors=st_obj.get("sensors", {}).get("status", {}), mesh=st_obj.get("mesh", {}).get("status", {}), linop=st_obj.get("linop", {}).get("status", {})),
+                  traces_validated_against_impl=st_io.get("seqs", 0) + sum(st_obj.get(k, {}).get("seqs", 0) for k in ("geometry", "sensors", "mesh", "linop")), io=st_io, objects=st_obj)
     ck.cov["trusted_base"] += ["hand-written Gallina state machines coq/Maths/IOState.v, coq/Geom/{GeomState,SensorsState,MeshState}.v tied by differential runs (harness/h_c17.cpp vs extracted extract/omm)",
                                "world tables (reader/writer outcome per content, format, kind; what one load does to a fresh Geometry/Sensors/Mesh) measured in fresh processes on the working tree",
                                "extraction: ExtrOcamlBasic only; OCaml driver extract/driver.ml"]
